@@ -27,7 +27,7 @@ OPS_FIND = ["find", "find_last", "find_start", "find_last_start", "in"]
 
 
 def bounds(tier):
-    return {"max_len": 4 if tier == "quick" else 6, "index_range": 9 if tier == "quick" else 40,
+    return {"max_len": 5 if tier == "quick" else 7, "index_range": 12 if tier == "quick" else 48,
             "find_alphabet": 3, "find_part_len": [0, 3]}
 
 
